@@ -195,6 +195,18 @@ def mutations(base, other, rnd, n_havoc, cmd_desc=None):
                     continue
                 d2["count"], d2["data"] = v2, bytes(2 * v2)
             yield "echo-of-another-write", (rc.rtu_response(d2, None) if cmd_desc["framing"] == "rtu" else rc.tcp_response(d2, None, txid=7))
+    # well-formed exception answers with known and unknown codes (must be refused or reported as rejected - never accepted, and
+    # the validator itself must not fail on them)
+    if cmd_desc is not None and cmd_desc["framing"] in ("rtu", "tcp"):
+        for code in (0, 1, 2, 4, 9, 11, 12, 0x7F, 0x80, 0xFF, rnd.randrange(256)):
+            yield "exception-frame", (rc.rtu_exception(cmd_desc, code) if cmd_desc["framing"] == "rtu" else rc.tcp_exception(cmd_desc, code))
+    # AA55: short acknowledge frames (payload 06 / 15 / empty) carrying the response type of ANOTHER command, checksum correct
+    if cmd_desc is not None and cmd_desc["framing"] == "aa55":
+        for rt in ("03b6", "02b9", "019a", "0186", "0182", "0189", "03d9", "03b7", "%04x" % rnd.randrange(65536)):
+            if rt.lower() == str(cmd_desc.get("rtype", "")).lower():
+                continue
+            for pl in (b"\x06", b"\x15", b"", b"\x06\x06"):
+                yield "foreign-ack", rc.aa55_response(rt, pl)
     for n in (0, 1, 4, 5, 8, 9, 10, 12, rnd.randrange(300), rnd.randrange(300)):
         yield "garbage", bytes(rnd.randrange(256) for _ in range(n))
 
